@@ -99,8 +99,8 @@ def c18(ctx):
               ("C,A", 2, 8000, False), ("B,B", 2, 5000, False), ("E,B", 2, 5000, False), ("s,f", 2, 8000, False),
               ("a,b,d", 2, 8000, False), ("a,a,b", 2, 8000, False)]
     # the shared token state (login state, last-session logout, the user PIN): ConcTok, a linearizability check
-    shared = [("Lc,Lo", 2, 2500, False), ("Lp,Lq", 2, 2500, False), ("Lv,Ll", 2, 2000, False), ("Lu,Ll", 2, 2000, False),
-              ("Ls,Lg", 2, 2000, False)] if quick else \
+    # (quick: the PIN, unwrap, sensitive-key and SO combinations run in the checks of C04, C06, C02 and C03)
+    shared = [("Lc,Lo", 2, 2500, False), ("Lv,Ll", 2, 2000, False)] if quick else \
              [("Lc,Lo", 2, 30000, False), ("Lc,Lo", 2, 20000, True), ("Lp,Lq", 2, 20000, True), ("Lr,Lx", 2, 20000, False),
               ("Lv,Ll", 2, 20000, False), ("Lu,Ll", 2, 20000, False), ("Lu,Lo", 2, 20000, False), ("Ls,Lg", 2, 30000, False), ("Ls,Lg", 1, 20000, True), ("Lz,Ly", 2, 20000, False), ("Lz,Lo", 2, 20000, False), ("Lc,Lv,Ll", 2, 20000, False), ("Lp,Lq,Lr", 2, 20000, False), ("Lr,Lx", 1, 10000, True)]
     tc_shared = dict(Threads=THREADS, PinSyms='{"P0", "P1", "P2", "PX", "SO"}', InitPin='"P0"',
